@@ -1,7 +1,637 @@
-//! C08 — harness not built yet.
+//! C08 — code-point offsets agree with byte offsets; the offset map is monotone and anchored.
+//! Unit-level differential run of `InputBuffer` (start_build / with_editor / build / to_orig ...) against Model/Buffer.v.
 use crate::common::*;
+use serde_json::{json, Value};
+use sudachi::dic::grammar::Grammar;
+use sudachi::dic::DictionaryLoader;
+use sudachi::input_text::{InputBuffer, InputTextIndex};
 
-pub fn run(_args: &Args) {
-    eprintln!("no harness for C08 yet");
-    std::process::exit(2);
+/// characters of every UTF-8 width, including the extremes of each width class
+pub const ALPHABET: [char; 28] = [
+    'a', 'b', 'Z', '1', ' ', '\u{0}', '\u{7f}', // 1 byte
+    '\u{80}', 'é', 'ß', '\u{7ff}', // 2 bytes
+    '\u{800}', 'あ', 'ア', '宇', 'ー', '㍿', 'ｶ', '\u{ffff}', // 3 bytes
+    '\u{10000}', '𠮷', '😀', '\u{10ffff}', // 4 bytes
+    'x', 'ｱ', 'ﾞ', '〜', '9',
+];
+
+#[derive(Clone, Debug)]
+pub struct EditSpec {
+    pub s: usize,
+    pub e: usize,
+    pub w: String,
+    pub kind: u8, // 0 replace_ref, 1 replace_own, 2 replace_char (single char only), 3 replace_char_iter
+}
+
+pub fn rand_string(rng: &mut Rng, max_chars: u64) -> String {
+    let n = rng.below(max_chars + 1);
+    (0..n).map(|_| *rng.pick(&ALPHABET)).collect()
+}
+
+pub fn boundaries(s: &str) -> Vec<usize> {
+    let mut v: Vec<usize> = s.char_indices().map(|(i, _)| i).collect();
+    v.push(s.len());
+    v
+}
+
+fn pick_kind(rng: &mut Rng, w: &str) -> u8 {
+    let n = w.chars().count();
+    loop {
+        let k = rng.below(4) as u8;
+        if k == 2 && n != 1 {
+            continue;
+        }
+        if k == 3 && n == 0 {
+            continue;
+        }
+        return k;
+    }
+}
+
+/// ordered, non-overlapping edits on character boundaries of `cur` (deletions, insertions, shorter / longer / equal
+/// replacements; adjacent edits and edits at start / end are frequent)
+pub fn gen_valid_batch(rng: &mut Rng, cur: &str) -> Vec<EditSpec> {
+    let b = boundaries(cur);
+    let nb = b.len();
+    let k = 1 + rng.below(4) as usize;
+    // choose 2k cut points (with repetition => empty ranges and adjacency), sorted
+    let mut cuts: Vec<usize> = (0..2 * k)
+        .map(|_| match rng.below(6) {
+            0 => 0,
+            1 => nb - 1,
+            _ => rng.below(nb as u64) as usize,
+        })
+        .collect();
+    cuts.sort();
+    let mut edits = vec![];
+    for i in 0..k {
+        let (s, e) = (b[cuts[2 * i]], b[cuts[2 * i + 1]]);
+        let w = match rng.below(6) {
+            0 | 1 => String::new(),
+            2 => (*rng.pick(&ALPHABET)).to_string(),
+            3 => {
+                // same number of characters, possibly different widths
+                cur[s..e].chars().map(|_| *rng.pick(&ALPHABET)).collect()
+            }
+            _ => rand_string(rng, 4),
+        };
+        if s == e && w.is_empty() && rng.chance(3, 4) {
+            continue; // a no-op edit is legal but dull: keep it rare
+        }
+        let kind = pick_kind(rng, &w);
+        edits.push(EditSpec { s, e, w, kind });
+    }
+    edits
+}
+
+/// edits outside the property's scope: unsorted, overlapping, reversed, off-boundary, out of range
+fn gen_malformed_batch(rng: &mut Rng, cur: &str) -> Vec<EditSpec> {
+    let mut edits = gen_valid_batch(rng, cur);
+    let len = cur.len();
+    let bad = match rng.below(6) {
+        0 => EditSpec { s: len + 1 + rng.below(3) as usize, e: len + 4, w: "x".into(), kind: 0 },
+        1 => EditSpec { s: rng.below(len as u64 + 1) as usize, e: len + 1 + rng.below(3) as usize, w: rand_string(rng, 2), kind: 0 },
+        2 => {
+            let a = rng.below(len as u64 + 1) as usize;
+            let b = rng.below(len as u64 + 1) as usize;
+            EditSpec { s: a.max(b), e: a.min(b), w: rand_string(rng, 2), kind: 1 }
+        }
+        3 => EditSpec { s: rng.below(len as u64 + 1) as usize, e: rng.below(len as u64 + 2) as usize, w: rand_string(rng, 2), kind: 0 },
+        4 => EditSpec { s: 0, e: len, w: rand_string(rng, 1), kind: 1 },
+        _ => EditSpec { s: rng.below(len as u64 + 1) as usize, e: rng.below(len as u64 + 1) as usize, w: String::new(), kind: 0 },
+    };
+    let pos = rng.below(edits.len() as u64 + 1) as usize;
+    edits.insert(pos, bad);
+    if rng.chance(1, 3) {
+        edits.reverse();
+    }
+    edits
+}
+
+pub fn batch_is_valid(cur: &str, edits: &[EditSpec]) -> bool {
+    let mut start = 0;
+    for e in edits {
+        if !(start <= e.s && e.s <= e.e && e.e <= cur.len() && cur.is_char_boundary(e.s) && cur.is_char_boundary(e.e)) {
+            return false;
+        }
+        start = e.e;
+    }
+    true
+}
+
+/// 0 = Ok, 1 = Err, 2 = panic
+pub fn apply_batch(buf: &mut InputBuffer, edits: &[EditSpec]) -> u8 {
+    let r = catch(|| {
+        buf.with_editor(|_, mut ed| {
+            for e in edits {
+                match e.kind {
+                    0 => ed.replace_ref(e.s..e.e, &e.w),
+                    1 => ed.replace_own(e.s..e.e, e.w.clone()),
+                    2 => ed.replace_char(e.s..e.e, e.w.chars().next().unwrap()),
+                    _ => {
+                        let mut it = e.w.chars();
+                        let c = it.next().unwrap();
+                        ed.replace_char_iter(e.s..e.e, c, it)
+                    }
+                }
+            }
+            Ok(ed)
+        })
+    });
+    match r {
+        Ok(Ok(())) => 0,
+        Ok(Err(_)) => 1,
+        Err(_) => 2,
+    }
+}
+
+pub struct Dump {
+    pub cur: String,
+    pub m2o: Vec<usize>,
+    pub c2b: Vec<usize>,
+    pub b2c: Vec<usize>,
+    pub obyte: Vec<usize>,
+    pub ochar: Vec<Option<usize>>,
+}
+
+/// everything observable of a built (RO) buffer
+pub fn dump_of(buf: &InputBuffer) -> Dump {
+    let cur = buf.current().to_string();
+    let len = cur.len();
+    let nch = cur.chars().count();
+    Dump {
+        m2o: (0..=len).map(|i| buf.to_orig(i..i).start).collect(),
+        c2b: (0..=nch).map(|c| buf.to_curr_byte_idx(c)).collect(),
+        b2c: (0..=len).map(|i| buf.ch_idx(i)).collect(),
+        obyte: (0..=nch).map(|c| buf.to_orig_byte_idx(c)).collect(),
+        ochar: (0..=nch).map(|c| catch(|| buf.to_orig_char_idx(c)).ok()).collect(),
+        cur,
+    }
+}
+
+pub fn dump_term(d: &Dump) -> String {
+    format!(
+        "(mkDump {} {} {} {} {} {})",
+        cbytes(d.cur.as_bytes()),
+        clist(d.m2o.iter().map(|x| cnu(*x))),
+        clist(d.c2b.iter().map(|x| cnu(*x))),
+        clist(d.b2c.iter().map(|x| cnu(*x))),
+        clist(d.obyte.iter().map(|x| cnu(*x))),
+        clist(d.ochar.iter().map(|x| copt(x.map(cnu))))
+    )
+}
+
+fn edits_term(b: &[EditSpec]) -> String {
+    clist(b.iter().map(|e| format!("mk_edit {} {} {}", cnu(e.s), cnu(e.e), cbytes(e.w.as_bytes()))))
+}
+
+/// independent statement of the property on what the implementation reports (in-scope cases only)
+pub fn oracle(orig: &str, d: &Dump) -> Option<String> {
+    let len = d.cur.len();
+    if d.m2o.len() != len + 1 {
+        return Some("offset map has the wrong length".into());
+    }
+    if d.m2o[0] != 0 {
+        return Some(format!("start of the rewritten text maps to {} instead of 0", d.m2o[0]));
+    }
+    if !d.cur.is_empty() && d.m2o[len] != orig.len() {
+        return Some(format!("end of the rewritten text maps to {} instead of {}", d.m2o[len], orig.len()));
+    }
+    for i in 1..=len {
+        if d.m2o[i - 1] > d.m2o[i] {
+            return Some(format!("offset map decreases at {}: {} > {}", i, d.m2o[i - 1], d.m2o[i]));
+        }
+    }
+    for i in 0..=len {
+        if d.cur.is_char_boundary(i) && !orig.is_char_boundary(d.m2o[i]) {
+            return Some(format!("boundary {} of the rewritten text maps to {} inside a character of the original", i, d.m2o[i]));
+        }
+    }
+    let nch = d.obyte.len();
+    for c in 0..nch {
+        let b = d.obyte[c];
+        if !orig.is_char_boundary(b) {
+            return Some(format!("character {} maps to byte {} which is not a boundary", c, b));
+        }
+        let want = orig[..b].chars().count();
+        if d.ochar[c] != Some(want) {
+            return Some(format!("code-point offset of character {} is {:?}, but {} code points precede byte {}", c, d.ochar[c], want, b));
+        }
+    }
+    for i in 0..nch {
+        for j in i..nch {
+            let (bi, bj) = (d.obyte[i], d.obyte[j]);
+            let (ci, cj) = (d.ochar[i].unwrap(), d.ochar[j].unwrap());
+            if ci > cj {
+                return Some(format!("code-point range {}..{} is reversed", ci, cj));
+            }
+            let by_cp: String = orig.chars().skip(ci).take(cj - ci).collect();
+            if by_cp != orig[bi..bj] {
+                return Some(format!("slicing by code points {}..{} gives {:?}, by bytes {}..{} gives {:?}", ci, cj, by_cp, bi, bj, &orig[bi..bj]));
+            }
+        }
+    }
+    None
+}
+
+/// shadow of the rewritten text: every character with the byte offset it had in the original (None = produced by an
+/// edit) and whether its mapped start must still be exact (it never was the first character after a deletion before it)
+type Shadow = Vec<(char, Option<usize>, bool)>;
+
+fn shadow_apply(sh: &Shadow, cur: &str, edits: &[EditSpec]) -> Shadow {
+    let offs: Vec<usize> = cur.char_indices().map(|(i, _)| i).collect();
+    let mut out: Shadow = vec![];
+    let mut k = 0;
+    for e in edits {
+        while k < sh.len() && offs[k] < e.s {
+            out.push(sh[k]);
+            k += 1;
+        }
+        for c in e.w.chars() {
+            out.push((c, None, false));
+        }
+        while k < sh.len() && offs[k] < e.e {
+            k += 1;
+        }
+    }
+    while k < sh.len() {
+        out.push(sh[k]);
+        k += 1;
+    }
+    if let Some(first) = out.first_mut() {
+        if first.1.map_or(false, |q| q != 0) {
+            first.2 = false;
+        }
+    }
+    out
+}
+
+fn shadow_oracle(sh: &Shadow, d: &Dump) -> Option<String> {
+    let mut p = 0;
+    for (c, origin, exact) in sh {
+        let w = c.len_utf8();
+        if let Some(q) = origin {
+            if !(d.m2o[p] <= *q && q + w <= d.m2o[p + w]) {
+                return Some(format!("unreplaced character {:?} (original bytes {}..{}) is reported at {}..{}", c, q, q + w, d.m2o[p], d.m2o[p + w]));
+            }
+            if *exact && d.m2o[p] != *q {
+                return Some(format!("unreplaced character {:?} at original byte {} is mapped to {}", c, q, d.m2o[p]));
+            }
+        }
+        p += w;
+    }
+    None
+}
+
+fn desc(orig: &str, batches: &[Vec<EditSpec>]) -> Value {
+    json!({"kind": "c08", "orig": orig,
+           "batches": batches.iter().map(|b| b.iter().map(|e| json!([e.s, e.e, e.w, e.kind])).collect::<Vec<_>>()).collect::<Vec<_>>()})
+}
+
+pub fn test_grammar() -> Grammar<'static> {
+    let bytes = std::fs::read(format!("{}/sudachi/tests/resources/system.dic.test", repo())).expect("system.dic.test");
+    let bytes: &'static [u8] = Box::leak(bytes.into_boxed_slice());
+    DictionaryLoader::read_system_dictionary(bytes).expect("load test dictionary").to_loaded().expect("grammar").grammar
+}
+
+struct Outcome {
+    statuses: Vec<u8>,
+    dump: Option<Dump>,
+    in_scope: bool,
+    shadow: Shadow,
+}
+
+/// run the implementation; `gen` produces the next batch from the current text
+fn run_impl(grammar: &Grammar, orig: &str, batches: &mut Vec<Vec<EditSpec>>, gen: &mut dyn FnMut(usize, &str) -> Option<Vec<EditSpec>>) -> Outcome {
+    let mut buf = InputBuffer::from(orig);
+    let mut statuses = vec![];
+    let mut in_scope = true;
+    let mut shadow: Shadow = orig.char_indices().map(|(i, c)| (c, Some(i), true)).collect();
+    let mut k = 0;
+    loop {
+        let cur = buf.current().to_string();
+        let b = if k < batches.len() {
+            batches[k].clone()
+        } else {
+            match gen(k, &cur) {
+                Some(b) => {
+                    batches.push(b.clone());
+                    b
+                }
+                None => break,
+            }
+        };
+        k += 1;
+        let valid = batch_is_valid(&cur, &b);
+        in_scope &= valid;
+        let st = apply_batch(&mut buf, &b);
+        statuses.push(st);
+        if st == 2 {
+            return Outcome { statuses, dump: None, in_scope: false, shadow };
+        }
+        if st == 0 && in_scope {
+            shadow = shadow_apply(&shadow, &cur, &b);
+            if buf.current().is_empty() {
+                in_scope = false;
+            }
+        }
+    }
+    let built = catch(|| buf.build(grammar));
+    let dump = match built {
+        Ok(Ok(())) => catch(|| dump_of(&buf)).ok(),
+        _ => None,
+    };
+    Outcome { statuses, dump, in_scope, shadow }
+}
+
+fn emit(sink: &mut Sink, orig: &str, batches: &[Vec<EditSpec>], out: &Outcome, verbose: bool) {
+    let term = format!(
+        "check_c08 {} {} {} {}",
+        cbytes(orig.as_bytes()),
+        clist(batches.iter().map(|b| edits_term(b))),
+        clist(out.statuses.iter().map(|s| cn(*s))),
+        copt(out.dump.as_ref().map(dump_term))
+    );
+    let nedits: usize = batches.iter().map(|b| b.len()).sum();
+    let nontrivial = out.in_scope && nedits > 0 && out.dump.is_some();
+    sink.tag(&format!("batches={}", batches.len()));
+    sink.tag(if out.in_scope { "in_scope" } else { "out_of_scope" });
+    if out.statuses.contains(&2) {
+        sink.tag("impl_panicked");
+    }
+    if out.statuses.contains(&1) {
+        sink.tag("impl_err");
+    }
+    let widths: std::collections::BTreeSet<usize> = orig.chars().map(|c| c.len_utf8()).collect();
+    sink.tag(&format!("orig_widths={}", widths.len()));
+    for b in batches {
+        for e in b {
+            sink.tag(if e.w.is_empty() && e.s < e.e {
+                "edit_delete"
+            } else if e.s == e.e {
+                "edit_insert"
+            } else if e.w.len() > e.e.saturating_sub(e.s) {
+                "edit_expand"
+            } else if e.w.len() < e.e.saturating_sub(e.s) {
+                "edit_shrink"
+            } else {
+                "edit_equal_len"
+            });
+        }
+        for w in b.windows(2) {
+            if w[0].e == w[1].s {
+                sink.tag("adjacent_edits");
+            }
+        }
+    }
+    let id = sink.case(term, desc(orig, batches), nontrivial);
+    if verbose {
+        println!("original  : {:?}", orig);
+        for (k, b) in batches.iter().enumerate() {
+            println!("batch {}   : {:?}", k, b.iter().map(|e| (e.s, e.e, e.w.as_str())).collect::<Vec<_>>());
+        }
+        println!("statuses  : {:?} (0 ok, 1 err, 2 panic)", out.statuses);
+        if let Some(d) = &out.dump {
+            println!("current   : {:?}", d.cur);
+            println!("m2o       : {:?}", d.m2o);
+            println!("orig byte : {:?}", d.obyte);
+            println!("orig char : {:?}", d.ochar);
+        }
+    }
+    if out.in_scope {
+        match &out.dump {
+            None => sink.fail(id, "well-formed batches made the implementation fail (panic in build or accessors)", ""),
+            Some(d) => {
+                let o = oracle(orig, d).or_else(|| shadow_oracle(&out.shadow, d));
+                if verbose {
+                    println!("oracle    : {:?}", o);
+                }
+                if let Some(w) = o {
+                    sink.fail(id, &w, "");
+                }
+            }
+        }
+    }
+}
+
+fn directed() -> Vec<(&'static str, Vec<Vec<(usize, usize, &'static str)>>)> {
+    vec![
+        // the unit tests of edit.rs
+        ("宇宙人", vec![vec![(3, 6, "銀")]]),
+        ("宇宙人", vec![vec![(0, 3, "銀河")]]),
+        ("宇宙人", vec![vec![(6, 9, "銀河")]]),
+        ("宇宙人", vec![vec![(0, 6, "")]]),
+        ("宇宙人", vec![vec![(3, 9, "")]]),
+        ("âｂC1あ", vec![vec![(0, 2, "a"), (2, 5, "b"), (5, 6, "c")]]),
+        ("あ", vec![vec![(0, 3, "abc")]]),
+        // three stacked batches on a 1-2-3-4-byte string: adjacent edits, deletion at start, expansion at end
+        ("aéあ😀", vec![vec![(0, 1, ""), (1, 3, "ee")], vec![(2, 5, "x"), (5, 9, "😀😀")], vec![(0, 1, "éé"), (1, 2, "")]]),
+        // everything deleted, then an insertion into the empty text (end is no longer anchored: out of scope)
+        ("ab", vec![vec![(0, 2, "")], vec![(0, 0, "x")]]),
+        // insertion at the very start after a deletion at the very start
+        ("aあb", vec![vec![(0, 1, "")], vec![(0, 0, "😀")], vec![(4, 7, ""), (7, 8, "cc")]]),
+        ("", vec![vec![(0, 0, "")]]),
+        ("", vec![vec![(0, 0, "a")]]),
+    ]
+}
+
+pub fn run(args: &Args) {
+    let mut sink = Sink::new("C08", &args.out, &["Model.Buffer"], args.seed, &args.tier);
+    sink.rule("random originals (0..14 characters over an alphabet of 1/2/3/4-byte characters incl. the extremes of every width) x 1..4 successive batches of 1..4 ordered non-overlapping edits on character boundaries (delete / insert / shrink / expand / equal length; at start, middle, end; adjacent) through replace_ref/own/char/char_iter; every byte offset and every character index of the result is queried. Separate stream of malformed batches (unsorted, overlapping, reversed, off-boundary, out of range) compares Ok/Err/panic only. non-trivial = in scope, at least one edit, distinct Coq term");
+    let grammar = test_grammar();
+    if let Some(p) = &args.replay {
+        let v: Value = serde_json::from_str(&std::fs::read_to_string(p).unwrap()).unwrap();
+        let case = &v["case"];
+        if case["kind"] == "c08" {
+            let orig = case["orig"].as_str().unwrap().to_string();
+            let mut batches: Vec<Vec<EditSpec>> = case["batches"]
+                .as_array()
+                .unwrap()
+                .iter()
+                .map(|b| {
+                    b.as_array()
+                        .unwrap()
+                        .iter()
+                        .map(|e| EditSpec {
+                            s: e[0].as_u64().unwrap() as usize,
+                            e: e[1].as_u64().unwrap() as usize,
+                            w: e[2].as_str().unwrap().to_string(),
+                            kind: e[3].as_u64().unwrap() as u8,
+                        })
+                        .collect()
+                })
+                .collect();
+            let out = run_impl(&grammar, &orig, &mut batches, &mut |_, _| None);
+            emit(&mut sink, &orig, &batches, &out, true);
+        } else {
+            limits(&mut sink, true);
+        }
+        sink.finish();
+        return;
+    }
+    let mut rng = Rng::new(args.seed);
+    for (orig, bs) in directed() {
+        let mut batches: Vec<Vec<EditSpec>> = bs
+            .iter()
+            .map(|b| b.iter().map(|(s, e, w)| EditSpec { s: *s, e: *e, w: w.to_string(), kind: 0 }).collect())
+            .collect();
+        let out = run_impl(&grammar, orig, &mut batches, &mut |_, _| None);
+        emit(&mut sink, orig, &batches, &out, false);
+        sink.tag("directed");
+    }
+    limits(&mut sink, false);
+    let n = args.n(900, 20000);
+    for _ in 0..n {
+        let orig = {
+            let mut s = rand_string(&mut rng, 14);
+            if s.is_empty() && rng.chance(9, 10) {
+                s = rand_string(&mut rng, 6);
+            }
+            s
+        };
+        let nb = 1 + rng.below(4) as usize;
+        let mut batches = vec![];
+        let mut r2 = rng.fork();
+        let out = run_impl(&grammar, &orig, &mut batches, &mut |k, cur| if k < nb { Some(gen_valid_batch(&mut r2, cur)) } else { None });
+        emit(&mut sink, &orig, &batches, &out, false);
+    }
+    if args.thorough() {
+        exhaustive(&mut sink, &grammar, &mut rng);
+    }
+    // malformed stream
+    let n = args.n(250, 4000);
+    for _ in 0..n {
+        let orig = rand_string(&mut rng, 8);
+        let nb = 1 + rng.below(3) as usize;
+        let bad_at = rng.below(nb as u64) as usize;
+        let mut batches = vec![];
+        let mut r2 = rng.fork();
+        let out = run_impl(&grammar, &orig, &mut batches, &mut |k, cur| {
+            if k >= nb {
+                None
+            } else if k == bad_at {
+                Some(gen_malformed_batch(&mut r2, cur))
+            } else {
+                Some(gen_valid_batch(&mut r2, cur))
+            }
+        });
+        emit(&mut sink, &orig, &batches, &out, false);
+        sink.tag("malformed_stream");
+    }
+    sink.finish();
+}
+
+/// the two length limits (MAX_LENGTH on the original, REALLY_MAX_LENGTH on the rewritten text)
+fn limits(sink: &mut Sink, verbose: bool) {
+    let max_len = u16::MAX as usize / 4 * 3; // what the documentation of the limit says; the model reads the constant from the source
+    for len in [max_len - 1, max_len, max_len + 1, 65535, 65536] {
+        let s = "a".repeat(len);
+        let mut buf = InputBuffer::new();
+        buf.reset().push_str(&s);
+        let ok = catch(|| buf.start_build().is_ok());
+        if verbose {
+            println!("start_build on {} bytes: {:?}", len, ok);
+        }
+        let id = sink.case(
+            format!("check_c08_start (repeat 97%N (N.to_nat {})) {}", cnu(len), cbool(ok == Ok(true))),
+            json!({"kind": "c08-limit", "len": len}),
+            true,
+        );
+        sink.tag("limit_start_build");
+        if ok.is_err() {
+            sink.fail(id, "start_build panicked", "");
+        }
+    }
+    // one batch on a 49149-byte original: (deletion of d bytes at `dpos`, expansion by x bytes at `xpos`)
+    let s = "a".repeat(max_len);
+    for (first_del, d, x) in [
+        (false, 0usize, 16386usize), // exactly 65535: accepted
+        (false, 0, 16387),           // 65536: rejected
+        (false, 100, 16487),         // expansion first: running length exceeds the limit before the deletion: early return
+        (true, 100, 16486),          // deletion first: running length never exceeds the limit: accepted
+        (true, 100, 16487),
+    ] {
+        let mut edits = vec![];
+        let del = EditSpec { s: if first_del { 0 } else { 10 + 1 }, e: if first_del { d } else { 10 + 1 + d }, w: String::new(), kind: 0 };
+        let exp = EditSpec { s: if first_del { d + 5 } else { 0 }, e: if first_del { d + 6 } else { 1 }, w: "b".repeat(x + 1), kind: 1 };
+        if first_del {
+            if d > 0 {
+                edits.push(del);
+            }
+            edits.push(exp);
+        } else {
+            edits.push(exp);
+            if d > 0 {
+                edits.push(del);
+            }
+        }
+        let mut buf = InputBuffer::from(s.as_str());
+        let st = apply_batch(&mut buf, &edits);
+        let len = buf.current().len();
+        if verbose {
+            println!("batch {:?} on {} bytes: status {} length {}", edits.iter().map(|e| (e.s, e.e, e.w.len())).collect::<Vec<_>>(), max_len, st, len);
+        }
+        let et = clist(edits.iter().map(|e| format!("mk_edit {} {} (repeat 98%N (N.to_nat {}))", cnu(e.s), cnu(e.e), cnu(e.w.len()))));
+        sink.case(
+            format!("check_c08_big (repeat 97%N (N.to_nat {})) {} {} {}", cnu(max_len), et, cn(st), cnu(len)),
+            json!({"kind": "c08-limit", "first_del": first_del, "d": d, "x": x}),
+            true,
+        );
+        sink.tag("limit_commit");
+    }
+}
+
+/// thorough tier: every original of <= 3 characters over one character per UTF-8 width x every batch of <= 2 ordered,
+/// non-overlapping edits with replacements from {"", "x", "あ", "xé"}; every fourth case is followed by a random batch
+fn exhaustive(sink: &mut Sink, grammar: &Grammar, rng: &mut Rng) {
+    let chars = ['a', 'é', 'あ', '😀'];
+    let repl = ["", "x", "あ", "xé"];
+    let mut originals = vec![String::new()];
+    let mut frontier = vec![String::new()];
+    for _ in 0..3 {
+        let mut next = vec![];
+        for s in &frontier {
+            for c in chars {
+                let mut x = s.clone();
+                x.push(c);
+                next.push(x);
+            }
+        }
+        originals.extend(next.iter().cloned());
+        frontier = next;
+    }
+    let mut count = 0u64;
+    for orig in &originals {
+        let b = boundaries(orig);
+        let mut ranges = vec![];
+        for i in 0..b.len() {
+            for j in i..b.len() {
+                ranges.push((b[i], b[j]));
+            }
+        }
+        let mut batches: Vec<Vec<EditSpec>> = vec![];
+        for r1 in &ranges {
+            for w1 in repl {
+                let e1 = EditSpec { s: r1.0, e: r1.1, w: w1.to_string(), kind: 0 };
+                batches.push(vec![e1.clone()]);
+                for r2 in &ranges {
+                    if r2.0 < r1.1 {
+                        continue;
+                    }
+                    for w2 in repl {
+                        batches.push(vec![e1.clone(), EditSpec { s: r2.0, e: r2.1, w: w2.to_string(), kind: 1 }]);
+                    }
+                }
+            }
+        }
+        for first in batches {
+            count += 1;
+            let follow = count % 4 == 0;
+            let mut bs = vec![first];
+            let mut r2 = rng.fork();
+            let out = run_impl(grammar, orig, &mut bs, &mut |k, cur| if follow && k == 1 { Some(gen_valid_batch(&mut r2, cur)) } else { None });
+            emit(sink, orig, &bs, &out, false);
+        }
+    }
+    sink.tag_n("exhaustive_small_scope", count);
 }
